@@ -22,16 +22,33 @@ type WireSeq struct {
 }
 
 type collector struct {
-	mu   sync.Mutex
-	buf  bytes.Buffer
-	last time.Time
-	eof  bool
+	mu     sync.Mutex
+	buf    bytes.Buffer
+	last   time.Time
+	eof    bool
+	inRead atomic.Bool // true while the collector sits in Read with everything read so far already in buf
+}
+
+// settled waits until the collector has stored what it read and is back in Read (or at EOF): with the
+// server blocked in its own Read nothing is in flight any more.
+func (c *collector) settled(max time.Duration) {
+	for t0 := time.Now(); time.Since(t0) < max; {
+		c.mu.Lock()
+		eof := c.eof
+		c.mu.Unlock()
+		if eof || c.inRead.Load() {
+			return
+		}
+		time.Sleep(50 * time.Microsecond)
+	}
 }
 
 func (c *collector) run(conn net.Conn) {
 	tmp := make([]byte, 65536)
 	for {
+		c.inRead.Store(true)
 		n, err := conn.Read(tmp)
+		c.inRead.Store(false)
 		c.mu.Lock()
 		if n > 0 {
 			c.buf.Write(tmp[:n])
@@ -61,6 +78,9 @@ func (c *collector) quiet(d time.Duration, max time.Duration) {
 
 var readsStarted, readsDone atomic.Int64
 
+// curCollector is the collector of the session in progress (waitBlocked stops early when it saw EOF).
+var curCollector *collector
+
 func init() {
 	HookExtra = func(name string) {
 		switch name {
@@ -85,24 +105,72 @@ func waitBlocked(minDone int64, max time.Duration) bool {
 		if readsDone.Load() >= minDone && blockedReads() == 1 {
 			return true
 		}
+		if c := curCollector; c != nil {
+			c.mu.Lock()
+			eof := c.eof
+			c.mu.Unlock()
+			if eof && blockedReads() == 0 {
+				return false // the server closed the connection: nothing more will happen
+			}
+		}
 		time.Sleep(100 * time.Microsecond)
 	}
 	return false
 }
 
+// runWireSeq measures a session twice (a third time when the two disagree) and writes the agreed line:
+// what one measurement sees depends on when the collector is read, and a loaded machine can make a
+// single reading come too early; a server behaviour that really differs from run to run is written as a
+// U line (not comparable).
 func runWireSeq(w *bufio.Writer, seqW *bufio.Writer, in *Inst, s WireSeq) {
+	var a, b bytes.Buffer
+	wa, wb := bufio.NewWriter(&a), bufio.NewWriter(&b)
+	runWireOnce(wa, nil, in, s)
+	wa.Flush()
+	runWireOnce(wb, nil, in, s)
+	wb.Flush()
+	line := a.String()
+	if a.String() != b.String() {
+		var c bytes.Buffer
+		wc := bufio.NewWriter(&c)
+		runWireOnce(wc, nil, in, s)
+		wc.Flush()
+		switch c.String() {
+		case a.String():
+		case b.String():
+			line = b.String()
+		default:
+			line = fmt.Sprintf("U %s three-measurements-of-the-session-disagree\n", s.ID)
+		}
+	}
+	w.WriteString(line)
+	if seqW != nil {
+		j, _ := json.Marshal(s)
+		seqW.Write(j)
+		seqW.WriteByte('\n')
+	}
+}
+
+func runWireOnce(w *bufio.Writer, seqW *bufio.Writer, in *Inst, s WireSeq) {
 	if os.Getenv("VH_DEBUG") != "" {
 		fmt.Fprintf(os.Stderr, "%s seq %s started=%d done=%d\n", time.Now().Format("15:04:05.000"), s.ID, readsStarted.Load(), readsDone.Load())
 	}
-	// earlier connections have been closed: wait until their goroutines have left ReadMessage
-	for t0 := time.Now(); blockedReads() != 0 && time.Since(t0) < time.Second; {
+	// earlier connections have been closed: wait until their goroutines have left ReadMessage; the
+	// synchronisation below counts reads globally, so a session is not started next to a stale reader
+	for t0 := time.Now(); blockedReads() != 0 && time.Since(t0) < 20*time.Second; {
 		time.Sleep(100 * time.Microsecond)
+	}
+	if blockedReads() != 0 {
+		fmt.Fprintf(w, "U %s stale-reader-from-an-earlier-session\n", s.ID)
+		return
 	}
 	client, server := net.Pipe()
 	go in.S.VerifServe(server)
 	col := &collector{last: time.Now()}
+	curCollector = col
+	defer func() { curCollector = nil }()
 	go col.run(client)
-	hung := !waitBlocked(0, time.Second)
+	hung := !waitBlocked(0, 10*time.Second)
 	for _, hx := range s.Writes {
 		data := UnhexCmd([]string{hx})[0]
 		if len(data) == 0 {
@@ -115,11 +183,12 @@ func runWireSeq(w *bufio.Writer, seqW *bufio.Writer, in *Inst, s WireSeq) {
 		}
 		// the pipe is synchronous: the server has consumed the bytes in ceil(len/8192) reads; wait until
 		// those have completed and it blocks in its next Read
-		if !waitBlocked(d0+int64((len(data)+8191)/8192), time.Second) {
+		if !waitBlocked(d0+int64((len(data)+8191)/8192), 10*time.Second) {
 			hung = true
 		}
 	}
 	// is the first connection still responsive? (a blocked reader does not answer a fresh PING)
+	col.settled(time.Second)
 	col.mu.Lock()
 	before := col.buf.Len()
 	col.mu.Unlock()
@@ -127,7 +196,8 @@ func runWireSeq(w *bufio.Writer, seqW *bufio.Writer, in *Inst, s WireSeq) {
 	d1 := readsDone.Load()
 	_ = client.SetWriteDeadline(time.Now().Add(time.Second))
 	_, _ = client.Write(Encode([]string{"PING"}))
-	waitBlocked(d1+1, time.Second)
+	waitBlocked(d1+1, 10*time.Second)
+	col.settled(time.Second)
 	col.mu.Lock()
 	out := append([]byte{}, col.buf.Bytes()...)
 	col.mu.Unlock()
@@ -135,7 +205,7 @@ func runWireSeq(w *bufio.Writer, seqW *bufio.Writer, in *Inst, s WireSeq) {
 	out = out[:before]
 	responsive := probe == "+PONG\r\n"
 	_ = client.Close()
-	for t0 := time.Now(); blockedReads() != 0 && time.Since(t0) < time.Second; {
+	for t0 := time.Now(); blockedReads() != 0 && time.Since(t0) < 20*time.Second; {
 		time.Sleep(100 * time.Microsecond)
 	}
 	// liveness: a second connection must still be served
